@@ -155,13 +155,6 @@ func (l *lexer) run() {
 	for action := l.lexPipeline; action != nil; {
 		action = action()
 	}
-	// the input ended on the line that announces a here-document
-	l.mu.Lock()
-	eof := l.eof && l.err == nil
-	l.mu.Unlock()
-	if eof && l.heredoc.exists() {
-		l.error(l.last.Load().(ast.Pos), "syntax error: here-document delimited by EOF")
-	}
 }
 
 func (l *lexer) lexPipeline() action {
@@ -691,8 +684,13 @@ func (l *lexer) lexToken(tok int) action {
 			return l.lexRedir
 		}
 	default:
-		if tok > 0 {
+		switch {
+		case tok > 0:
 			l.emit(tok)
+		case tok == 0 && l.heredoc.exists():
+			// the input ended on the line that announces a
+			// here-document
+			l.error(l.pos, "syntax error: here-document delimited by EOF")
 		}
 	}
 	return nil
